@@ -21,6 +21,7 @@ func init() {
 		Explanation: "Exhaustive census of every HTTP route registration in the module (direct net/http mux calls, calls of home.httpRegister, calls through any aghhttp.RegisterFunc-typed value), each with constant pattern, constant method, resolved handler and the chain of wrapper functions around the handler. " +
 			"Decided: (D1) patterns/methods are compile-time constants; (D2) every RegisterFunc-typed value in the program originates from home.httpRegister; (D3) every route carries the auth wrapper unless it is in the frozen public table taken from the property statement (login call, mobileconfig, DoH resolver, first-run install routes which must carry preInstall), and only the two /dns-query routes use the unauthenticated method \"\" branch of httpRegister; " +
 			"(D4) in the closure returned by ensure the handler is reached only with the declared method and, for mutating methods, after the content-type check and under controlLock; (D5) in optionalAuth the wrapped handler is reached only when auth is not required, the path is a public resource or optionalAuthThird returned false, and optionalAuthThird returns false only on a positive session/basic-auth/GL-iNet result; (D6) every http.Server handler derives from the one mux. " +
+			"(D8) whoever goes from a session's cookie text to its database record (refresh, expiry, logout) addresses the record with hex.DecodeString of that very text. " +
 			"Not decided: URL normalisation by net/http, credential and cookie value semantics, expiry arithmetic (C12).",
 		RuleText: "Routes are enumerated from SSA call sites resolved by callee (never by name text); wrapper chains by walking the handler argument backwards through calls.",
 		Assumptions: []string{
@@ -388,6 +389,7 @@ func runC11(c *Ctx) {
 	c11Servers(c)
 	c11WrapperShapes(c)
 	c11AuthPredicate(c)
+	sessionKeyForm(c, "C11-D8")
 }
 
 // c11AuthPredicate: D7 — "once an administrator account exists": the state
